@@ -266,7 +266,7 @@ impl H {
                 break;
             }
             vtime::real_sleep_us(20);
-            if vtime::real_now_ns() - start > 10_000_000_000 {
+            if vtime::real_now_ns() - start > 80_000_000_000 {
                 return Err("a background save did not end".into());
             }
         }
@@ -274,7 +274,8 @@ impl H {
     }
     /// wait until the background save thread has passed BGSAVE_END `n` times in total and is gone
     fn wait_bgsave_done(&self, n: u64) -> Result<(), String> {
-        if !gate::wait_counter(vh::BGSAVE_END, n, 10_000) {
+        // (a second, much longer wait before this becomes a verdict: a loaded machine may starve the thread for seconds)
+        if !gate::wait_counter(vh::BGSAVE_END, n, 10_000) && !gate::wait_counter(vh::BGSAVE_END, n, 70_000) {
             return Err("background save did not end".into());
         }
         vtime::settle().map_err(|_| "settle timeout after the background save".to_string())
@@ -1169,7 +1170,17 @@ pub fn handle_factory() -> impl FnMut(&str, &Value, &mut WorkerIo) -> (Value, bo
                 for i in a..bnd {
                     let s = &scheds[i];
                     let starter = if family == "autosave" { Starter::AutoSave } else { Starter::Bgsave };
-                    match run_schedule(hh, &ty, &ttl, starter, family == "two-writers", &menu, s) {
+                    let mut attempt = run_schedule(hh, &ty, &ttl, starter, family == "two-writers", &menu, s);
+                    if matches!(&attempt, Err(e) if e.contains("did not end") || e.contains("neither paused nor ended")) {
+                        // "the save thread never arrived" rests on a real-time wait: repeat the schedule on a fresh server
+                        // with eight times the patience before it becomes a verdict (a loaded machine may starve a thread)
+                        hh.drop_server();
+                        gate::PATIENCE.store(8, Ordering::SeqCst);
+                        let starter = if family == "autosave" { Starter::AutoSave } else { Starter::Bgsave };
+                        attempt = run_schedule(hh, &ty, &ttl, starter, family == "two-writers", &menu, s);
+                        gate::PATIENCE.store(1, Ordering::SeqCst);
+                    }
+                    match attempt {
                         Ok(out) => {
                             n += 1;
                             pause_total += out.pauses.len() as u64;
